@@ -52,7 +52,9 @@ func (s c17Service) UpdateRequestContext(sdk.Context, tmbytes.HexBytes, []sdk.Ac
 	return nil
 }
 
-var c17Numbers = []string{"-2.5", "0", "3.25", "100", "-0.125"}
+// the values a provider may report; 1, 2 and 3 are also the values the feed's history holds (the newest stored
+// value is the number of values stored), so a batch's aggregate may equal the value the feed reports already
+var c17Numbers = []string{"-2.5", "0", "3.25", "100", "-0.125", "1", "2", "3"}
 
 func c17Env(history int, latest uint64) (*vEnv, Keeper, c17Service, types.Feed) {
 	e := newVEnv(types.StoreKey, 10)
